@@ -103,11 +103,24 @@ Theorem G_build_float64 (e : Z) (s : f64) :
 Proof. exact (build_float64_normal e s). Qed.
 Print Assumptions G_build_float64.
 
-(* below 2 the repair changes nothing; the unrepaired function has the same value on [1, 2) *)
+(* on [1, 2) the repairs change nothing; the unrepaired function has the same value there *)
 Theorem G_build_float64_lt2 (e : Z) (s : f64) :
-  finite s -> (val s < 2)%R -> build_float64 e s = build_float64_raw e s.
+  finite s -> (1 <= val s < 2)%R -> build_float64 e s = build_float64_raw e s.
 Proof. exact (build_float64_lt2 e s). Qed.
 Print Assumptions G_build_float64_lt2.
+
+(* the repaired case F11: a significand that rounding errors brought below 1 counts as 1 (the bottom of the binade);
+   the code before the repair took its fraction bits (all ones), i.e. nearly twice as much *)
+Theorem G_build_float64_lt1 (e : Z) (s : f64) :
+  finite s -> (val s < 1)%R -> build_float64 e s = build_float64_raw e f64_one.
+Proof. exact (build_float64_lt1 e s). Qed.
+Print Assumptions G_build_float64_lt1.
+
+Example G_ex_build_float64_below_one :
+  let s := f64_of_bits 4607182418800017406 (* 0x3feffffffffffffe = 0.9999999999999998 *) in
+  (bits_of_f64 (build_float64 (-1) s), bits_of_f64 (build_float64_f9 (-1) s))
+  = (4602678819172646912%N (* 0.5 *), 4607182418800017406%N (* 0.9999999999999998: the defect *)).
+Proof. vm_compute. reflexivity. Qed.
 
 Theorem G_build_float64_raw (e : Z) (s : f64) :
   -1022 <= e <= 1023 -> finite s -> (1 <= val s < 2)%R ->
